@@ -302,6 +302,15 @@ func ledgerMain(s ledgerSpec, args []string) int {
 		return ledgerReplay(s, runs, *replay)
 	}
 	rep := common.NewReport(s.id, s.level)
+	if s.id == "C07" {
+		// same-decisions twin: a node that truncated a single-tip ledger decides every later event as it would have without
+		space.Twin = &space.TwinSpec{Property: "C07", Predicate: "C07.same-decisions", Key: "C07.decision-changed-by-truncation",
+			// proposals and vertices crafted on the node's current tips; deliveries of older vertices are not compared:
+			// a vertex that names a checkpointed parent can no longer be attached, which the property does not rule out
+			Compare: func(ev string) bool {
+				return strings.HasPrefix(ev, "P:") || strings.HasPrefix(ev, "X:") || strings.HasPrefix(ev, "Y:")
+			}}
+	}
 	budgetQ, budgetT := 150*time.Second, 40*time.Minute
 	deadline := common.Deadline(budgetQ, budgetT)
 	total := &space.Stats{Exhaustive: true, Counters: map[string]int{}, PerKind: map[string]int{}, Results: map[string]int{}}
@@ -423,9 +432,12 @@ func ledgerReplay(s ledgerSpec, runs []ledgerRun, path string) int {
 	var v struct {
 		Key     string
 		Witness struct {
-			Run     string   `json:"run"`
-			Path    []string `json:"path"`
-			Choices []int    `json:"choices"`
+			Run         string   `json:"run"`
+			Path        []string `json:"path"`
+			Choices     []int    `json:"choices"`
+			Twin        bool     `json:"twin"`
+			TwinPath    []string `json:"twin_path"`
+			TwinChoices []int    `json:"twin_choices"`
 		}
 	}
 	if err := json.Unmarshal(b, &v); err != nil {
@@ -439,6 +451,23 @@ func ledgerReplay(s ledgerSpec, runs []ledgerRun, path string) int {
 		space.Opt.KeyFunc = world.KeyFunc
 		m := ledger.New(withPrefixTxs(r.cfg))
 		m.Setup()
+		if v.Witness.Twin {
+			// differential violation: replay both histories and compare last result and projection
+			a := space.Expand(m, space.Job{Path: v.Witness.TwinPath, Choices: v.Witness.TwinChoices, Replay: true})
+			b := space.Expand(m, space.Job{Path: v.Witness.Path, Choices: v.Witness.Choices, Replay: true})
+			a2 := space.Expand(m, space.Job{Path: v.Witness.TwinPath, Choices: v.Witness.TwinChoices, Replay: true})
+			if a.Succs[0].Key != a2.Succs[0].Key {
+				fmt.Println("replay is not deterministic")
+				return 2
+			}
+			fmt.Printf("without: %v -> %s\n   %s\nwith:    %v -> %s\n   %s\n", v.Witness.TwinPath, a.Succs[0].Result, a.Succs[0].Proj, v.Witness.Path, b.Succs[0].Result, b.Succs[0].Proj)
+			if a.Succs[0].Result != b.Succs[0].Result && !strings.HasSuffix(v.Key, "/state-differs") || a.Succs[0].Proj != b.Succs[0].Proj {
+				fmt.Printf("VIOLATION property=%s replay=%s\n", s.id, path)
+				return 1
+			}
+			fmt.Println("violation did not reproduce on the current tree")
+			return 0
+		}
 		var keys []string
 		found := false
 		for k := 0; k < 2; k++ {
